@@ -31,6 +31,7 @@ ALPHABET = {
              S("G2", "X# Y# R#"), pl.REPEAT],
 }
 
+ALPHABET["add"] = [ADD]
 ALPHABET["enter"] = [S("G1", "X# Y#"), S("G1", "X# Y# E#"), S("G1", "X# Y# Z# E#")]
 ALPHABET["leave"] = [S("G1", "X# Y#"), S("G0", "X#"), S("G1", "Y# E#")]
 
@@ -148,6 +149,7 @@ def plan(tier):
         add("k2-" + a, "%s,%s" % (a, a))
         add("k3-episode-" + a, "enter,%s,leave" % a, kinds="r" if tier == "quick" else "rd")
     add("k2-arcs", "arcs,arcs", kinds="d" if tier == "quick" else "rd")
+    add("k3-arc-region-move", "arcs,add,leave", kinds="r")
     from harness import inductive
     for start in ("outside", "inside"):
         SCENARIOS["ind-" + start] = scen_ind
